@@ -25,6 +25,9 @@ import (
 
 type overlayEdit struct{ anchor, replacement string }
 
+// autoYieldSites is the number of yield sites the last build inserted.
+var autoYieldSites int
+
 var selectEdits = []overlayEdit{
 	{"import (\n\t\"internal/abi\"\n", "import (\n\t\"internal/abi\"\n\t\"internal/runtime/atomic\"\n"},
 	{"\tgp := getg()\n\tif debugSelect {\n\t\tprint(\"select: cas0=\", cas0, \"\\n\")\n\t}\n", "\tgp := getg()\n\tif debugSelect {\n\t\tprint(\"select: cas0=\", cas0, \"\\n\")\n\t}\n" + `
@@ -158,6 +161,11 @@ func prepareOverlay(root string) (string, string) {
 			}
 		}
 		replace[src] = dst
+	}
+	if n, err := autoYieldFiles(root, dir, replace); err != nil {
+		fmt.Printf("note: no automatic yield sites (%v)\n", err)
+	} else {
+		autoYieldSites = n
 	}
 	cfg, _ := json.Marshal(map[string]any{"Replace": replace})
 	js := filepath.Join(dir, "overlay.json")
